@@ -266,6 +266,7 @@ func reflectionGuards(r *core.Run) {
 			}},
 	})
 	oneofWrapperAllFields(r)
+	registeredRefsRolledBack(r)
 	_ = fmt.Sprintf
 }
 
